@@ -561,8 +561,8 @@ def sa_flows(req, A_SIDE=A_SIDE, B_SIDE=B_SIDE):
     """flows a NEWSA request's selector covers, normalised to (A side, B side, proto)"""
     s = req['sel']
     fam = {2: 4, 10: 6}.get(s['family'])
-    if fam is None:
-        return None
+    if fam is None or max(s['prefixlen_s'], s['prefixlen_d']) > (32 if fam == 4 else 128):
+        return None         # no family, or a prefix longer than an address of that family: nothing a kernel accepts
     src = R.kernel_side(fam, int(s['saddr']), s['prefixlen_s'], s['sport'], s['sport_mask'], s['proto'])
     dst = R.kernel_side(fam, int(s['daddr']), s['prefixlen_d'], s['dport'], s['dport_mask'], s['proto'])
     if str(req['daddr']) == S.IP_B:
